@@ -57,6 +57,7 @@ class Lowerer:
         self.func_defs = {}    # qname -> [definition nodes]
         self.overloads = {}    # qname -> set of first-decl ids
         self._fn_types_cache = {}
+        self._unified_cache = {}
         self.index()
         # emission state
         self.needed_funcs = {}     # first id -> cname (queued for emission)
@@ -73,6 +74,7 @@ class Lowerer:
         self.stub_names = set()    # cnames that must not be lowered (declaration only)
         self.func_info = {}        # cname -> dict(qname, file, line, mangled)
         self.libc_used = set()
+        self.signed_shl_used = set()
         self.string_tables = {}
 
     # ------------------------------------------------------------------ indexing
@@ -241,8 +243,11 @@ class Lowerer:
         name = n.get('name')
         if k in RECORD_KINDS and not name:
             # anonymous record: name from location
+            # (same spelling as cxxtypes gives "(anonymous union at file.hpp:L:C)" so that type strings resolve to it)
             loc = n.get('loc', {})
-            name = 'anon_%s_%s' % (loc.get('line', n.get('range', {}).get('begin', {}).get('line', 'x')), nid[-5:])
+            if 'col' not in loc:
+                loc = loc.get('expansionLoc', loc)
+            name = 'anon_' + re.sub(r'[^A-Za-z0-9]', '_', '%s:%s:%s' % (os.path.basename(n.get('_file') or 'x'), n.get('_line', 'x'), loc.get('col', nid[-5:])))
         if name is None:
             self.qname_cache[nid] = None
             return None
@@ -312,6 +317,13 @@ class Lowerer:
         cands = [k for k in self.records if k.endswith(suf)]
         if len(cands) == 1:
             return ('rec', cands[0])
+        if len(cands) > 1 and name.startswith('anon_'):
+            # function-local anonymous union of a member of several class-template instantiations: the type string
+            # carries no scope; accept only if every candidate has the same members
+            sigs = set(tuple((f.get('name'), f['type'].get('desugaredQualType') or f['type'].get('qualType'))
+                             for f in self.record_fields(self.records[k])) for k in cands)
+            if len(sigs) == 1:
+                return ('rec', sorted(cands)[0])
         ec = [k for k in self.enums if k.endswith(suf)]
         if len(ec) == 1 and not cands:
             return ('enum', ec[0])
@@ -332,6 +344,29 @@ class Lowerer:
                 cands = [k for k in cands if k.endswith(k[k.index(pre2):])]
                 if len(cands) == 1:
                     return ('rec', cands[0])
+        # member typedef of a record spelled differently from its registered name, or inherited from a base class:
+        # `typename StringAdapter<JsonString>::AdaptedString`, `typename Comparer<long>::result_type`
+        qparts = split_qname(name)
+        if len(qparts) > 1:
+            owner = self.resolve_named('::'.join(qparts[:-1]), depth + 1)
+            if owner[0] == 'rec':
+                todo = [owner[1]]   # the record under its registered spelling (defaulted arguments added), then its bases
+                while todo:
+                    b = todo.pop(0)
+                    key = b + '::' + qparts[-1]
+                    if key in self.aliases:
+                        return self.resolve_alias(self.aliases[key], depth)
+                    if key in self.records:
+                        return ('rec', key)
+                    if key in self.enums:
+                        return ('enum', key)
+                    todo.extend(self.record_bases(self.records[b]))
+        # records are registered with cv-less top-level template arguments (targ()): SerializedValue<const char *> is
+        # the record SerializedValue<char *>
+        if 'const ' in name:
+            r = self.resolve_named(re.sub(r'\bconst\s+', '', name), depth + 1)
+            if r[0] == 'rec':
+                return r
         # incomplete types (declared, never defined in this TU): opaque struct
         return ('opaque', name)
 
@@ -434,6 +469,60 @@ class Lowerer:
                 out.append(c)
         return out
 
+    def anon_member_record(self, n, f):
+        """the anonymous struct/union declared in record n of which the unnamed field f is the implicit object (else None)"""
+        if f.get('name'):
+            return None
+        last = None
+        for c in n.get('inner', ()):
+            if c.get('kind') in RECORD_KINDS and not c.get('name') and c.get('completeDefinition'):
+                last = c
+            elif c is f:
+                return last
+        return None
+
+    def field_lines(self, n, ind):
+        """C member declarations for the fields of record node n; anonymous struct/union members are emitted inline (C11)"""
+        lines = []
+        for f in self.record_fields(n):
+            a = self.anon_member_record(n, f)
+            if a is not None:
+                if a.get('bases') or a.get('definitionData', {}).get('isPolymorphic'):
+                    raise LowerError('anonymous member record with bases in ' + self.qname(n))
+                lines.append('%s%s {' % (ind, 'union' if a.get('tagUsed') == 'union' else 'struct'))
+                lines.extend(self.field_lines(a, ind + '  '))
+                lines.append(ind + '};')
+                continue
+            ft = self.rtype(f['type'])
+            fname = f.get('name') or ''
+            if self.is_ref(ft):
+                ft = ('ptr', ft[1])
+            if self.unified_ptr_field(f):
+                self.touch(ft)
+                ft = ('ptr', ('builtin', 'void'))
+            lines.append('%s%s;' % (ind, self.cdecl(ft, fname)))
+        return lines
+
+    def unified_ptr_field(self, f):
+        """CBMC 6.11 tracks the points-to set of only one pointer-typed member of a union (reads through the others give
+        spurious failures). Pointer members of a union that has pointer members of >= 2 distinct types are therefore declared
+        `void *` in the lowered C and cast back to their real type at every read (same size, same representation)."""
+        fid = f.get('id')
+        if fid in self._unified_cache:
+            return self._unified_cache[fid]
+        par = self.parent.get(fid)
+        res = False
+        if par is not None and par.get('tagUsed') == 'union':
+            kinds = set()
+            for g in self.record_fields(par):
+                gt = self.rtype(g['type'])
+                if gt[0] == 'ptr':
+                    kinds.add(self.type_name(gt))
+            ft = self.rtype(f['type'])
+            res = len(kinds) >= 2 and ft[0] == 'ptr'
+        self._unified_cache[fid] = res
+        return res
+
     def emit_record(self, name):
         n = self.records[name]
         kw = 'union' if n.get('tagUsed') == 'union' else 'struct'
@@ -453,13 +542,9 @@ class Lowerer:
         if dd.get('isPolymorphic') and not poly_in_base:
             lines.insert(1, '  void *_vptr;')
             members += 1
-        for f in self.record_fields(n):
-            ft = self.rtype(f['type'])
-            fname = f.get('name') or ''
-            if self.is_ref(ft):
-                ft = ('ptr', ft[1])
-            lines.append('  %s;' % self.cdecl(ft, fname))
-            members += 1
+        fl = self.field_lines(n, '  ')
+        lines.extend(fl)
+        members += len(fl)
         if members == 0:
             lines.append('  char _empty;')
         lines.append('};')
@@ -480,8 +565,14 @@ class Lowerer:
                 byval(t[1])
             elif t[0] in ('ptr', 'ref', 'rref'):
                 self.touch(t[1])
-        for f in self.record_fields(n):
-            byval(self.rtype(f['type']))
+        def fields_of(rn):
+            for f in self.record_fields(rn):
+                a = self.anon_member_record(rn, f)
+                if a is not None:
+                    fields_of(a)
+                else:
+                    byval(self.rtype(f['type']))
+        fields_of(n)
         return deps
 
     def touch(self, t):
@@ -780,7 +871,10 @@ class Lowerer:
             body.append(text)
         types = self.emit_types()
         parts = ['/* generated by ajlower from clang AST of /repo/src -- do not edit */',
-                 '#include <stdint.h>', '#include <stddef.h>', '#include <string.h>', '#include <stdlib.h>', '']
+                 '#include <stdint.h>', '#include <stddef.h>', '#include <string.h>', '#include <stdlib.h>',
+                 '/* floating -> integer conversions (undefined when the truncated value does not fit T): a spec file may',
+                 ' * define AJ_FLOAT_TO_INT before including this file to assert definedness at every such cast */',
+                 '#ifndef AJ_FLOAT_TO_INT', '#define AJ_FLOAT_TO_INT(T, x) ((T)(x))', '#endif', '']
         parts.append(types)
         for c in self.const_order:
             parts.append(self.const_macros[c])
@@ -789,6 +883,17 @@ class Lowerer:
             parts.append(p + ';')
         parts.append('')
         if not types_only:
+            if self.signed_shl_used:
+                # C makes E1 << E2 undefined as soon as the result does not fit the signed type (1 << 31); C++11 (CWG 1457)
+                # to C++17 define it whenever E1 >= 0 and E1 * 2^E2 fits the corresponding unsigned type (the value is
+                # then converted), C++20 always.  Lower with the C++14 rule, keeping its undefined cases as an assertion.
+                for tn in sorted(self.signed_shl_used):
+                    cn = tn.replace(' ', '')
+                    parts.append('static inline %s AJ_SHL_%s(%s a, unsigned long b) {\n'
+                                 '  __CPROVER_assert(a >= 0 && (((unsigned %s)a << b) >> b) == (unsigned %s)a, '
+                                 '"signed left shift is defined (C++14 [expr.shift]: non-negative, fits the unsigned type)");\n'
+                                 '  return (%s)((unsigned %s)a << b);\n}' % (tn, cn, tn, tn, tn, tn, tn))
+                parts.append('')
             parts.extend(body)
         return '\n'.join(parts) + '\n'
 
@@ -806,6 +911,7 @@ class Lowerer:
         self.stub_names = set()
         self.func_info = {}
         self.libc_used = set()
+        self.signed_shl_used = set()
 
     # ------------------------------------------------------------------ native shim (C++ side of covalidate / replay)
     def cpp_targs(self, n):
@@ -887,7 +993,7 @@ class Lowerer:
                 if pt[1][0] == 'func':
                     raise LowerError('function pointer parameter')
                 cparams.append('void* ' + nm)
-                args.append('(%s)(%s)' % (cpp, nm))
+                args.append('nullptr' if 'nullptr_t' in cpp else '(%s)(%s)' % (cpp, nm))
             elif pt[0] == 'enum':
                 cparams.append('%s %s' % (self.enum_ctype(pt[1]).replace('_Bool', 'bool'), nm))
                 args.append('static_cast<%s>(%s)' % (cpp, nm))
@@ -920,6 +1026,9 @@ class Lowerer:
             return 'extern "C" void %s(void* self) {\n  using T_ = %s;\n  reinterpret_cast<T_*>(self)->~T_();\n}\n' % (cname, cls)
         if static:
             call = '%s%s%s%s(%s)' % (scope, 'template ' if (targs and scope and '<' in scope) else '', name, targs, ', '.join(args))
+            if k == 'FunctionDecl' and len(args) == 2 and name in ('operator==', 'operator!=', 'operator<', 'operator<=', 'operator>', 'operator>='):
+                # free comparison operators are mostly hidden friends (found by ADL only): call them in infix form
+                call = '((%s) %s (%s))' % (args[0], name[len('operator'):], args[1])
         else:
             cls = scope[:-2]
             if k == 'CXXConversionDecl':
@@ -988,7 +1097,11 @@ class Lowerer:
         skipped = []
         todo = list(self.needed_funcs.items())
         # (functions stubbed by the unit although /repo defines them get no wrapper: the spec's stub is the definition)
+        seen_cnames = set()
         for first, cname in todo:
+            if cname in seen_cnames:
+                continue   # const / non-const overloads of one member share a C name (and one lowered body)
+            seen_cnames.add(cname)
             try:
                 out.append(self.shim_wrapper(cname, first))
             except (LowerError, KeyError) as e:
@@ -1942,6 +2055,11 @@ class FuncLowerer:
             return s, False
         if op == ',':
             return '(%s, %s)' % (self.rv(l), self.rv(r)), False
+        if op == '<<':
+            t = self.ty(e)
+            if t[0] == 'builtin' and t[1] in ('int', 'long', 'long long'):
+                self.L.signed_shl_used.add(t[1])
+                return 'AJ_SHL_%s(%s, %s)' % (t[1].replace(' ', ''), self.rv(l), self.rv(r)), False
         return '(%s %s %s)' % (self.rv(l), op, self.rv(r)), False
 
     def e_CompoundAssignOperator(self, e):
@@ -1966,10 +2084,19 @@ class FuncLowerer:
                   'UserDefinedConversion', 'BuiltinFnToFnPtr'):
             s, l = self.expr(sub)
             if ck in ('LValueToRValue',):
+                sk = self.skip_cleanups(sub)
+                while sk.get('kind') == 'ParenExpr':
+                    sk = self.kids(sk)[0]
+                if sk.get('kind') == 'MemberExpr':
+                    fd = L.byid.get(sk.get('referencedMemberDecl'))
+                    if fd is not None and fd.get('kind') == 'FieldDecl' and L.unified_ptr_field(fd):
+                        return '((%s)%s)' % (L.cdecl(t, ''), s), False
                 return s, False
             if ck == 'ArrayToPointerDecay':
                 return s, False
             return s, l
+        if ck == 'FloatingToIntegral' and t[0] == 'builtin':
+            return 'AJ_FLOAT_TO_INT(%s, %s)' % (L.cdecl(t, ''), self.rv(sub)), False
         if ck in ('IntegralCast', 'IntegralToBoolean', 'FloatingToIntegral', 'IntegralToFloating', 'FloatingCast',
                   'PointerToBoolean', 'FloatingToBoolean', 'BooleanToSignedIntegral', 'IntegralToPointer', 'PointerToIntegral'):
             return '((%s)%s)' % (L.cdecl(t, ''), self.rv(sub)), False
@@ -2436,7 +2563,24 @@ class FuncLowerer:
         self.err('try', s)
 
     def s_CXXForRangeStmt(self, s):
-        self.err('range-based for', s)
+        # clang has already desugared it: [init, __range decl, __begin decl, __end decl, cond, inc, loop-variable decl, body]
+        raw = s.get('inner', [])
+        parts = [c if isinstance(c, dict) and c.get('kind') else None for c in raw]
+        if len(parts) != 8 or any(p is None for p in parts[1:]):
+            self.err('range-based for with unexpected shape (%d parts)' % len(parts), s)
+        init, rng, beg, end, cond, inc, var, body = parts
+        pre = []
+        for p in (init, rng, beg, end):
+            if p is not None:
+                pre.extend(self.stmt(p))
+        lc = self.loop_contract()
+        out = ['for (; %s; %s)' % (self.rv(cond), self.rv(inc))]
+        out.extend(indent(lc))
+        self.block_tmps.append([])
+        inner = self.stmt(var) + self.block(body)
+        inner = self.block_tmps.pop() + inner
+        out.extend(['{'] + indent(inner) + ['}'])
+        return ['{'] + indent(pre + out) + ['}']
 
 
 def indent(lines):
